@@ -216,7 +216,8 @@ impl Case {
         if self.add_patterns {
             v["add_patterns"] = json!(true);
         }
-        if !self.inputs.is_empty() {
+        if !self.inputs.is_empty() && self.extra.get("all_scalars").is_none() {
+            // (the 4.4 MB string of all scalar values is restored from the flag)
             v["inputs"] = json!(self.inputs);
         }
         if let Some(o) = self.start_offset {
@@ -243,7 +244,13 @@ impl Case {
         }
         let inputs = match v.get("inputs") {
             Some(i) => serde_json::from_value(i.clone()).map_err(|e| e.to_string())?,
-            None => vec![],
+            None => {
+                if v.get("extra").and_then(|e| e.get("all_scalars")).is_some() {
+                    vec![crate::sets::all_scalars().to_string()]
+                } else {
+                    vec![]
+                }
+            }
         };
         let ops = match v.get("ops") {
             Some(i) => serde_json::from_value(i.clone()).map_err(|e| e.to_string())?,
